@@ -79,6 +79,43 @@ Proof.
   cbn [hosted_type]. now rewrite N.eqb_refl.
 Qed.
 
+(** stopping a shard: it is gone, every other shard keeps its type, ids stay unique *)
+Lemma hosted_type_stop_same : forall h s, hosted_type (stop h s) s = None.
+Proof.
+  unfold stop. induction h as [|[s' t'] h IH]; intros s; cbn [List.filter fst].
+  - reflexivity.
+  - destruct (N.eqb_spec s' s) as [E|NE]; cbn [negb].
+    + apply IH.
+    + cbn [hosted_type]. destruct (N.eqb_spec s' s) as [E|_]; [contradiction|]. apply IH.
+Qed.
+
+Lemma hosted_type_stop_other : forall h s s',
+  s' <> s -> hosted_type (stop h s) s' = hosted_type h s'.
+Proof.
+  unfold stop. induction h as [|[s0 t0] h IH]; intros s s' NE; cbn [List.filter fst].
+  - reflexivity.
+  - destruct (N.eqb_spec s0 s) as [E|NE0]; cbn [negb hosted_type].
+    + subst s0. destruct (N.eqb_spec s s') as [E|_]; [congruence|]. now apply IH.
+    + destruct (s0 =? s'); [reflexivity|]. now apply IH.
+Qed.
+
+Lemma stop_incl : forall h s x, In x (map fst (stop h s)) -> In x (map fst h).
+Proof.
+  unfold stop. intros h s x HI. apply in_map_iff in HI as [ci [E HI]].
+  apply List.filter_In in HI as [HI _]. apply in_map_iff. now exists ci.
+Qed.
+
+Lemma stop_nodup : forall h s, List.NoDup (map fst h) -> List.NoDup (map fst (stop h s)).
+Proof.
+  induction h as [|[s' t'] h IH]; intros s ND.
+  - exact ND.
+  - cbn [map fst] in ND. apply List.NoDup_cons_iff in ND as [NI ND].
+    unfold stop. cbn [List.filter fst]. destruct (negb (s' =? s)).
+    + cbn [map fst]. constructor; [|now apply IH].
+      intros HI. apply NI. exact (stop_incl h s s' HI).
+    + now apply IH.
+Qed.
+
 (** the type a shard is looked up with does not depend on the order of the list *)
 Lemma hosted_type_perm : forall h1 h2 s,
   List.NoDup (map fst h1) -> Permutation h1 h2 -> hosted_type h1 s = hosted_type h2 s.
@@ -96,28 +133,22 @@ Proof.
     apply (Permutation_in (l := h2)); [now symmetry|exact E2].
 Qed.
 
-(** * the cache-fill loop *)
-
-Lemma fill_other : forall s il c s', s' <> s -> fill s il c !! s' = c !! s'.
-Proof.
-  intros s il. unfold fill. induction il as [|ci il IH]; intros c s' NE; cbn [fold_left].
-  - reflexivity.
-  - rewrite IH by exact NE. unfold fill_step. destruct (fst ci =? s); [|reflexivity].
-    apply lookup_insert_ne. congruence.
-Qed.
+(** * the lookup loop of supportRegularSession *)
 
 Definition mentions (s : N) (il : hosting) : bool := existsb (fun ci => fst ci =? s) il.
 
-Lemma fill_self : forall s il c v0,
+(** the loop returns the value of the entries naming [s] (all alike when ids are unique), or what
+    it started with when there is none *)
+Lemma lookup_fold : forall s il acc v0,
   (forall t, In (s, t) il -> negb (is_ondisk t) = v0) ->
-  fill s il c !! s = if mentions s il then Some v0 else c !! s.
+  fold_left (lookup_step s) il acc = if mentions s il then Some v0 else acc.
 Proof.
-  intros s il. unfold fill, mentions. induction il as [|[s' t'] il IH]; intros c v0 Hall; cbn [fold_left existsb].
+  intros s il. unfold mentions. induction il as [|[s' t'] il IH]; intros acc v0 Hall; cbn [fold_left existsb].
   - reflexivity.
-  - unfold fill_step at 2. cbn [fst snd].
+  - unfold lookup_step at 2. cbn [fst snd].
     destruct (N.eqb_spec s' s) as [E|NE]; cbn [orb].
     + subst s'. rewrite (IH _ v0).
-      * rewrite (Hall t') by now left. rewrite lookup_insert. now destruct (existsb _ il).
+      * rewrite (Hall t') by now left. now destruct (existsb _ il).
       * intros t Ht. apply Hall. now right.
     + apply IH. intros t Ht. apply Hall. now right.
 Qed.
@@ -135,80 +166,42 @@ Proof.
   apply N.eqb_eq in HE. subst s'. apply NI. apply in_map_iff. now exists (s, t').
 Qed.
 
-(** * the invariant *)
-
-(** shard ids are unique, and every cached entry is the right answer for a shard that is
-    running (entries are never wrong, and never describe a shard that is not there) *)
-Definition cache_ok (st : fstate) : Prop :=
-  List.NoDup (map fst (hosted st)) /\
-  forall s v, fcache st !! s = Some v ->
-    exists t, hosted_type (hosted st) s = Some t /\ v = negb (is_ondisk t).
-
-Lemma cache_ok_init : cache_ok finit.
+(** the answer of supportRegularSession against any info list that is a permutation of a
+    hosting configuration with unique shard ids *)
+Lemma support_regular_spec : forall h il s,
+  List.NoDup (map fst h) -> Permutation il h ->
+  support_regular il s = option_map (fun t => negb (is_ondisk t)) (hosted_type h s).
 Proof.
-  split; cbn [hosted fcache finit map].
+  intros h il s ND P. unfold support_regular.
+  assert (Hil : forall t, In (s, t) il -> hosted_type h s = Some t).
+  { intros t Ht. apply in_hosted_type; [exact ND|].
+    apply (Permutation_in (l := il)); [exact P|exact Ht]. }
+  destruct (hosted_type h s) as [t0|] eqn:EH; cbn [option_map].
+  - rewrite (lookup_fold s il _ (negb (is_ondisk t0))).
+    + rewrite (mentions_true s il t0); [reflexivity|].
+      apply (Permutation_in (l := h)); [now symmetry|]. now apply hosted_type_in.
+    + intros t Ht. apply Hil in Ht. now injection Ht as ->.
+  - rewrite (lookup_fold s il _ true).
+    + rewrite mentions_false; [reflexivity|].
+      intros HI. apply hosted_type_none in EH. apply EH.
+      apply in_map_iff in HI as [[s' t'] [E HI]]. cbn [fst] in E. subst s'.
+      apply in_map_iff. exists (s, t'). split; [reflexivity|].
+      apply (Permutation_in (l := il)); [exact P|exact HI].
+    + intros t Ht. apply Hil in Ht. discriminate.
+Qed.
+
+(** * the invariant: shard ids are unique, whatever is started, stopped and started again *)
+
+Lemma query_state : forall st il s, snd (query st il s) = st.
+Proof. reflexivity. Qed.
+
+Lemma reachable_ok : forall st, reachable st -> List.NoDup (map fst (hosted st)).
+Proof.
+  intros st R. induction R as [|st s t R IH|st s R IH|st il s R IH P].
   - constructor.
-  - intros s v H. rewrite lookup_empty in H. discriminate.
-Qed.
-
-Lemma cache_ok_start : forall st s t, cache_ok st -> cache_ok (start_shard st s t).
-Proof.
-  intros st s t [ND HC]. split; cbn [start_shard hosted fcache].
-  - now apply start_nodup.
-  - intros s' v H. destruct (HC s' v H) as [t' [Ht' Hv]]. exists t'. split; [|exact Hv].
-    now apply start_mono.
-Qed.
-
-(** the answer of supportRegularSession against any info list that is a permutation of the
-    hosting configuration, in a state satisfying the invariant *)
-Lemma support_regular_spec : forall st il s,
-  cache_ok st -> Permutation il (hosted st) ->
-  fst (support_regular (fcache st) il s) =
-    option_map (fun t => negb (is_ondisk t)) (hosted_type (hosted st) s).
-Proof.
-  intros st il s [ND HC] P. unfold support_regular.
-  destruct (fcache st !! s) as [v|] eqn:EC; cbn [fst].
-  - destruct (HC s v EC) as [t [Ht Hv]]. rewrite Ht. cbn [option_map]. now subst v.
-  - assert (Hil : forall t, In (s, t) il -> hosted_type (hosted st) s = Some t).
-    { intros t Ht. apply in_hosted_type; [exact ND|].
-      apply (Permutation_in (l := il)); [exact P|exact Ht]. }
-    destruct (hosted_type (hosted st) s) as [t0|] eqn:EH; cbn [option_map].
-    + rewrite (fill_self s il _ (negb (is_ondisk t0))).
-      * rewrite (mentions_true s il t0); [reflexivity|].
-        apply (Permutation_in (l := hosted st)); [now symmetry|]. now apply hosted_type_in.
-      * intros t Ht. apply Hil in Ht. now injection Ht as ->.
-    + rewrite (fill_self s il _ true).
-      * rewrite mentions_false; [exact EC|].
-        intros HI. apply hosted_type_none in EH. apply EH.
-        apply in_map_iff in HI as [[s' t'] [E HI]]. cbn [fst] in E. subst s'.
-        apply in_map_iff. exists (s, t'). split; [reflexivity|].
-        apply (Permutation_in (l := il)); [exact P|exact HI].
-      * intros t Ht. apply Hil in Ht. discriminate.
-Qed.
-
-Lemma cache_ok_query : forall st il s,
-  cache_ok st -> Permutation il (hosted st) -> cache_ok (snd (query st il s)).
-Proof.
-  intros st il s OK P. pose proof (support_regular_spec st il s OK P) as SP.
-  destruct OK as [ND HC]. unfold query.
-  destruct (support_regular (fcache st) il s) as [r c'] eqn:ES. cbn [snd fst] in *.
-  split; cbn [hosted fcache]; [exact ND|].
-  intros s' v H. unfold support_regular in ES.
-  destruct (fcache st !! s) as [v0|] eqn:EC.
-  - injection ES as <- <-. now apply HC.
-  - injection ES as Er <-. destruct (N.eq_dec s' s) as [->|NE].
-    + rewrite H in Er. subst r.
-      destruct (hosted_type (hosted st) s) as [t|]; cbn [option_map] in SP; [|discriminate].
-      injection SP as ->. now exists t.
-    + rewrite fill_other in H by exact NE. now apply HC.
-Qed.
-
-Lemma reachable_ok : forall st, reachable st -> cache_ok st.
-Proof.
-  intros st R. induction R as [|st s t R IH|st il s R IH P].
-  - apply cache_ok_init.
-  - now apply cache_ok_start.
-  - now apply cache_ok_query.
+  - cbn [start_shard hosted]. now apply start_nodup.
+  - cbn [stop_shard hosted]. now apply stop_nodup.
+  - exact IH.
 Qed.
 
 (** * C19_kind *)
@@ -222,17 +215,11 @@ Proof.
 Qed.
 
 Lemma query_spec : forall st il s,
-  cache_ok st -> Permutation il (hosted st) ->
+  List.NoDup (map fst (hosted st)) -> Permutation il (hosted st) ->
   fst (query st il s) = spec_answer (hosted st) s.
 Proof.
-  intros st il s OK P. pose proof (support_regular_spec st il s OK P) as SP.
-  unfold query. destruct (support_regular (fcache st) il s) as [r c']. cbn [fst] in *.
-  subst r. apply qres_of_spec.
-Qed.
-
-Lemma query_hosted : forall st il s, hosted (snd (query st il s)) = hosted st.
-Proof.
-  intros st il s. unfold query. now destruct (support_regular (fcache st) il s).
+  intros st il s ND P. unfold query. cbn [fst].
+  rewrite (support_regular_spec (hosted st) il s ND P). apply qres_of_spec.
 Qed.
 
 Theorem kind_reachable : forall st, reachable st ->
@@ -269,44 +256,65 @@ Proof.
   - exact (kind_not_hosted st R il s P E).
 Qed.
 
-(** the deterministic, executable run agrees with the cache-free specification *)
-Lemma run_from_spec : forall evs st,
-  cache_ok st -> fst (run_from st evs) = spec_run (hosted st) evs.
+(** a stopped shard id is answered with an error until it is started again, and then with the
+    kind of the NEW type, whatever it ran as before and whatever was asked before *)
+Theorem kind_after_stop : forall st, reachable st -> forall s il,
+  Permutation il (hosted (stop_shard st s)) -> fst (query (stop_shard st s) il s) = QErr.
 Proof.
-  induction evs as [|e evs IH]; intros st OK; cbn [run_from spec_run].
+  intros st R s il P. apply (kind_not_hosted _ (R_stop st s R) il s P).
+  cbn [stop_shard hosted]. apply hosted_type_stop_same.
+Qed.
+
+Theorem kind_after_rehost : forall st, reachable st -> forall s t il,
+  Permutation il (hosted (start_shard (stop_shard st s) s t)) ->
+  fst (query (start_shard (stop_shard st s) s t) il s) = QKind (kind_of_type t).
+Proof.
+  intros st R s t il P.
+  rewrite (kind_reachable _ (R_start _ s t (R_stop st s R)) il s P).
+  unfold spec_answer. cbn [start_shard stop_shard hosted].
+  rewrite start_fresh; [reflexivity|apply hosted_type_stop_same].
+Qed.
+
+(** the deterministic, executable run agrees with the specification on every event list,
+    stops and re-hosts included *)
+Lemma run_from_spec : forall evs st,
+  List.NoDup (map fst (hosted st)) -> fst (run_from st evs) = spec_run (hosted st) evs.
+Proof.
+  induction evs as [|e evs IH]; intros st ND; cbn [run_from spec_run].
   - reflexivity.
-  - destruct e as [s t|s]; cbn [step].
-    + specialize (IH (start_shard st s t) (cache_ok_start st s t OK)).
+  - destruct e as [s t|s|s]; cbn [step].
+    + specialize (IH (start_shard st s t) (start_nodup _ s t ND)).
       destruct (run_from (start_shard st s t) evs) as [os st'']. cbn [fst app] in *.
       exact IH.
-    + pose proof (query_spec st (hosted st) s OK (Permutation_refl _)) as Q.
-      pose proof (cache_ok_query st (hosted st) s OK (Permutation_refl _)) as OK'.
-      pose proof (query_hosted st (hosted st) s) as QH.
-      destruct (query st (hosted st) s) as [r st']. cbn [fst snd] in *.
-      specialize (IH st' OK').
-      destruct (run_from st' evs) as [os st'']. cbn [fst app] in *.
-      rewrite Q, IH, QH. reflexivity.
+    + pose proof (query_spec st (hosted st) s ND (Permutation_refl _)) as Q.
+      unfold query in *. cbn [fst] in Q.
+      specialize (IH st ND).
+      destruct (run_from st evs) as [os st'']. cbn [fst app] in *.
+      rewrite Q, IH. reflexivity.
+    + specialize (IH (stop_shard st s) (stop_nodup _ s ND)).
+      destruct (run_from (stop_shard st s) evs) as [os st'']. cbn [fst app] in *.
+      exact IH.
 Qed.
 
 Theorem run_spec : forall evs, run evs = spec_run [] evs.
-Proof. intros evs. unfold run. apply (run_from_spec evs finit cache_ok_init). Qed.
+Proof. intros evs. unfold run. apply (run_from_spec evs finit). constructor. Qed.
 
 (** the state reached by the deterministic run is reachable *)
 Lemma run_from_reachable : forall evs st, reachable st -> reachable (snd (run_from st evs)).
 Proof.
   induction evs as [|e evs IH]; intros st R; cbn [run_from].
   - exact R.
-  - destruct e as [s t|s]; cbn [step].
+  - destruct e as [s t|s|s]; cbn [step].
     + specialize (IH _ (R_start st s t R)).
       now destruct (run_from (start_shard st s t) evs).
-    + pose proof (R_query st (hosted st) s R (Permutation_refl _)) as R'.
-      destruct (query st (hosted st) s) as [r st']. cbn [snd] in R'.
-      specialize (IH _ R'). now destruct (run_from st' evs).
+    + unfold query. specialize (IH _ R). now destruct (run_from st evs).
+    + specialize (IH _ (R_stop st s R)).
+      now destruct (run_from (stop_shard st s) evs).
 Qed.
 
-(** start order and everything else the NodeHost runs are irrelevant: two facade objects, on
-    NodeHosts whose hosting configurations give shard [s] the same type (or both do not run it),
-    answer alike *)
+(** start order, earlier incarnations and everything else the NodeHost runs are irrelevant: two
+    facade objects, on NodeHosts whose hosting configurations give shard [s] the same type (or
+    both do not run it), answer alike *)
 Theorem kind_order_independent : forall st1 st2, reachable st1 -> reachable st2 ->
   forall il1 il2 s, Permutation il1 (hosted st1) -> Permutation il2 (hosted st2) ->
     hosted_type (hosted st1) s = hosted_type (hosted st2) s ->
@@ -325,7 +333,7 @@ Theorem kind_start_order : forall st1 st2, reachable st1 -> reachable st2 ->
 Proof.
   intros st1 st2 R1 R2 P il1 il2 s P1 P2.
   apply kind_order_independent; try assumption.
-  apply hosted_type_perm; [|exact P]. apply (reachable_ok st1 R1).
+  apply hosted_type_perm; [|exact P]. exact (reachable_ok st1 R1).
 Qed.
 
 Theorem kind_order_full : forall st1 st2, reachable st1 -> reachable st2 ->
@@ -473,8 +481,7 @@ Section Transparent.
     end.
   Proof.
     intros st il w s R P. cbn zeta. unfold facade_get_session.
-    pose proof (support_regular_spec st il s (reachable_ok st R) P) as SP.
-    destruct (support_regular (fcache st) il s) as [r c']. cbn [fst] in SP. subst r.
+    rewrite (support_regular_spec (hosted st) il s (reachable_ok st R) P).
     destruct (hosted_type (hosted st) s) as [[| |]|]; cbn [option_map is_ondisk negb fst snd].
     - destruct (local_get_session w s) as [[cs|e] w']; cbn [fst snd]; now split.
     - destruct (local_get_session w s) as [[cs|e] w']; cbn [fst snd]; now split.
